@@ -49,12 +49,50 @@ _B = {"order": 4, "side": 4, "rank": 4, "trank": 3}
 # ----------------------------------------------------------------------------
 # generation helpers
 # ----------------------------------------------------------------------------
-def _apply_edits(factors, edits):
+# "tiny" classes: a column (or the whole tensor) whose norm is far below the machine epsilon of the working precision but not zero
+_TINY = {"float64": 1e-18, "float32": 1e-8}
+
+
+def _tol(case):
+    """(rel for dense comparisons, unit-norm tolerance, collinearity tolerance) of the working precision"""
+    return (REL, 1e-10, 1e-9) if case.get("dtype", "float64") == "float64" else (5e-5, 2e-5, 2e-5)
+
+
+def _f64(xs):
+    return [np.asarray(x, dtype=np.float64) for x in xs]
+
+
+def _round_to(case, x):
+    """values representable in the working precision, held in float64 for the references"""
+    dt = case.get("dtype", "float64")
+    return x if (x is None or dt == "float64") else np.asarray(x).astype(dt).astype(np.float64)
+
+
+def _cast(case, x):
+    return None if x is None else np.array(x, dtype=case.get("dtype", "float64"))
+
+
+def _tiny_comps(case):
+    """(mode, column, 1/t) for every 'tiny' edit: the caller scales a weight / core slice / partner column up so that the tensor stays O(1)"""
+    t = _TINY[case.get("dtype", "float64")]
+    return [(e[1], e[2], 1.0 / t) for e in case.get("edits", []) if e[0] == "tiny"]
+
+
+def _apply_edits(factors, edits, dtype="float64"):
     """force degenerate classes on decoded factor matrices (in place on fresh arrays)"""
+    t = _TINY[dtype]
+    done_all = False
     for e in edits:
         op, j, r = e[0], e[1], e[2]
         f = factors[j]
-        if op == "zero":
+        if op == "tiny":               # one column with norm << eps (compensated by the caller, see _tiny_comps)
+            f[:, r] = f[:, r] * t
+        elif op == "tinyall":          # whole tensor at a tiny scale, applied once (float32: three factors at most; both to stay clear of underflow)
+            if not done_all:
+                for g in factors[:len(factors) if dtype == "float64" else 3]:
+                    g *= t
+            done_all = True
+        elif op == "zero":
             f[:, r] = 0
         elif op == "zmean":            # integer column with sum exactly 0
             col = np.rint(f[:, r] * 2)
@@ -94,23 +132,31 @@ def _edits(draw, n_modes, rank, kinds=("zero", "zmean", "dup", "neg"), max_edits
 
 @st.composite
 def _cp_case(draw, min_order=2, max_order=None, max_side=None, max_rank=None, edit_kinds=("zero", "zmean", "dup", "neg"),
-             weights=("none", "ones", "pos", "neg", "mixed", "zero"), forms=("tuple", "wrapper"), min_side=1):
+             weights=("none", "ones", "pos", "neg", "mixed", "zero"), forms=("tuple", "wrapper"), min_side=1, dtypes=None):
     shape = draw(gen.shapes(min_order, max_order or _B["order"], min_side, max_side or _B["side"]))
     rank = draw(st.integers(1, max_rank or _B["rank"]))
     cp = draw(gen.cp_factors(shape, rank, weights=weights))
-    return {"shape": shape, "rank": rank, "cp": cp, "edits": draw(_edits(len(shape), rank, edit_kinds)),
-            "form": draw(st.sampled_from(list(forms)))}
+    c = {"shape": shape, "rank": rank, "cp": cp, "edits": draw(_edits(len(shape), rank, edit_kinds)),
+         "form": draw(st.sampled_from(list(forms)))}
+    if dtypes:
+        c["dtype"] = draw(st.sampled_from(list(dtypes)))
+    return c
 
 
 def _cp_build(case):
     w, fs = gen.dec_cp(case["cp"])
-    fs = _apply_edits([np.array(f, dtype=float) for f in fs], case.get("edits", []))
-    return w, fs
+    fs = _apply_edits([np.array(f, dtype=float) for f in fs], case.get("edits", []), case.get("dtype", "float64"))
+    for j, r, up in _tiny_comps(case):
+        if w is not None:
+            w[r] = w[r] * up
+        else:
+            fs[(j + 1) % len(fs)][:, r] *= up
+    return _round_to(case, w), [_round_to(case, f) for f in fs]
 
 
 def _cp_obj(case, w, fs):
     """fresh library input (tuple or CPTensor) holding copies"""
-    t = (None if w is None else w.copy(), [f.copy() for f in fs])
+    t = (_cast(case, w), [_cast(case, f) for f in fs])
     if case["form"] == "wrapper":
         return CP.CPTensor(t)
     return t
@@ -123,7 +169,7 @@ def _cp_scale(w, fs):
 def _cp_labels(case, extra=()):
     kinds = sorted({e[0] for e in case.get("edits", [])})
     return [f"order={len(case['shape'])}", f"rank={case['rank']}", f"w={case['cp']['wkind']}", f"form={case['form']}",
-            "edits=" + ("+".join(kinds) if kinds else "none")] + list(extra)
+            "edits=" + ("+".join(kinds) if kinds else "none"), f"dtype={case.get('dtype', 'float64')}"] + list(extra)
 
 
 def _cp_nontrivial(case):
@@ -149,7 +195,7 @@ def _colnorms(f):
     return np.sqrt(np.sum(np.abs(f) ** 2, axis=0))
 
 
-def _check_unit_or_zero(out_f, in_f, clause):
+def _check_unit_or_zero(out_f, in_f, clause, unit=1e-10, col=1e-9):
     """columns of out_f have unit norm where the input column is non-zero (and are collinear with
     it), and are exactly zero where the input column is zero"""
     nin = _colnorms(in_f)
@@ -158,9 +204,9 @@ def _check_unit_or_zero(out_f, in_f, clause):
         if nin[r] == 0:
             check(nout[r] == 0, clause + "/zero-col", lambda: f"zero input column {r} became norm {nout[r]:.3e}")
         else:
-            check(abs(nout[r] - 1) <= 1e-10, clause + "/unit-norm", lambda: f"column {r} has norm {nout[r]!r}")
-            c = abs(float(np.dot(out_f[:, r], in_f[:, r]))) / nin[r]
-            check(abs(c - 1) <= 1e-9, clause + "/collinear", lambda: f"column {r}: |cos| with input column = {c!r}")
+            check(abs(nout[r] - 1) <= unit, clause + "/unit-norm", lambda: f"column {r} has norm {nout[r]!r} (input column norm {nin[r]:.3e})")
+            c = abs(float(np.dot(out_f[:, r], in_f[:, r] / nin[r])))
+            check(abs(c - 1) <= col, clause + "/collinear", lambda: f"column {r}: |cos| with input column = {c!r}")
 
 
 # ----------------------------------------------------------------------------
@@ -172,16 +218,18 @@ def _o_cp_normalize(part, method):
         dense = ref.cp_dense(w, fs)
         scale = _cp_scale(w, fs)
         if method:
-            obj = CP.CPTensor((np.ones(case["rank"]) if w is None else w.copy(), [f.copy() for f in fs]))
+            obj = CP.CPTensor((_cast(case, np.ones(case["rank"]) if w is None else w), [_cast(case, f) for f in fs]))
             ret = obj.normalize()
             res = obj
             check(ret is None or isinstance(ret, CP.CPTensor), "normalize/return", lambda: f"returned {type(ret).__name__}")
         else:
             res = CP.cp_normalize(_cp_obj(case, w, fs))
+        rel, unit, col = _tol(case)
         ow, ofs = _unpack_cp(res, "cp_normalize", len(fs), case["rank"])
         check(ow is not None, "cp_normalize/structure", "weights None after normalisation")
+        ow, ofs = np.asarray(ow, dtype=np.float64), _f64(ofs)
         if part == "dense":
-            close(ref.cp_dense(ow, ofs), dense, "cp_normalize/dense", rel=REL, scale=scale)
+            close(ref.cp_dense(ow, ofs), dense, "cp_normalize/dense", rel=rel, scale=scale)
         else:
             win = np.ones(case["rank"]) if w is None else w
             check(bool(np.all(ow >= 0)), "cp_normalize/weights-nonneg", lambda: f"weights {ow.tolist()}")
@@ -194,17 +242,17 @@ def _o_cp_normalize(part, method):
                     nout = _colnorms(o)
                     for r in range(case["rank"]):
                         if not nz[r]:
-                            check(nout[r] == 0 or abs(nout[r] - 1) <= 1e-10, "cp_normalize/mode0/unit-norm",
+                            check(nout[r] == 0 or abs(nout[r] - 1) <= unit, "cp_normalize/mode0/unit-norm",
                                   lambda: f"mode 0 column {r} has norm {nout[r]!r}")
-                    _check_unit_or_zero(o[:, nz], f[:, nz], "cp_normalize/mode0")
+                    _check_unit_or_zero(o[:, nz], f[:, nz], "cp_normalize/mode0", unit, col)
                 else:
-                    _check_unit_or_zero(o, f, "cp_normalize/modek")
+                    _check_unit_or_zero(o, f, "cp_normalize/modek", unit, col)
             # scale moved to the weights: |w| * prod of column norms (asserted for components without a zero column;
             # for the others the dense clause already forces weight * columns = 0)
             norms = np.prod([_colnorms(f) for f in fs], axis=0)
             want = np.abs(win) * norms
             full = want != 0
-            close(ow[full], want[full], "cp_normalize/weights-value", rel=REL, scale=float(np.max(want)) if want.size and np.max(want) > 0 else 1.0)
+            close(ow[full], want[full], "cp_normalize/weights-value", rel=rel, scale=float(np.max(want)) if want.size and np.max(want) > 0 else 1.0)
         return {"nontrivial": _cp_nontrivial(case), "labels": _cp_labels(case)}
     return oracle
 
@@ -214,7 +262,8 @@ def o_cp_normalize_returns(case):
     w, fs = _cp_build(case)
     dense = ref.cp_dense(w, fs)
     scale = _cp_scale(w, fs)
-    obj = CP.CPTensor((np.ones(case["rank"]) if w is None else w.copy(), [f.copy() for f in fs]))
+    obj = CP.CPTensor((_cast(case, np.ones(case["rank"]) if w is None else w), [_cast(case, f) for f in fs]))
+    rel, unit, col = _tol(case)
     before = snap.freeze(obj)
     ret = obj.normalize() if case["inplace"] == "default" else obj.normalize(inplace=case["inplace"])
     check(ret is not None, "CPTensor.normalize/returns-cp-tensor", lambda: f"normalize(inplace={case['inplace']}) returned None")
@@ -227,13 +276,14 @@ def o_cp_normalize_returns(case):
         # "otherwise the tensor modifies itself and returns itself"
         check(ret is obj, "CPTensor.normalize/inplace-true-returns-self", lambda: f"returned a different object ({type(ret).__name__})")
     ow, ofs = _unpack_cp(ret, "CPTensor.normalize", len(fs), case["rank"])
-    close(ref.cp_dense(ow, ofs), dense, "CPTensor.normalize/returned-dense", rel=REL, scale=scale)
+    ow, ofs = np.asarray(ow, dtype=np.float64), _f64(ofs)
+    close(ref.cp_dense(ow, ofs), dense, "CPTensor.normalize/returned-dense", rel=rel, scale=scale)
     for o in ofs:
         n = _colnorms(o)
-        check(bool(np.all((n == 0) | (np.abs(n - 1) <= 1e-10))), "CPTensor.normalize/returned-unit-norm", lambda: f"column norms {n.tolist()}")
+        check(bool(np.all((n == 0) | (np.abs(n - 1) <= unit))), "CPTensor.normalize/returned-unit-norm", lambda: f"column norms {n.tolist()}")
     # whatever `inplace`, the object itself keeps representing the same tensor
     sw, sfs = _unpack_cp(obj, "CPTensor.normalize", len(fs), case["rank"])
-    close(ref.cp_dense(sw, sfs), dense, "CPTensor.normalize/self-dense", rel=REL, scale=scale)
+    close(ref.cp_dense(np.asarray(sw, dtype=np.float64), _f64(sfs)), dense, "CPTensor.normalize/self-dense", rel=rel, scale=scale)
     return {"nontrivial": _cp_nontrivial(case), "labels": _cp_labels(case, [f"inplace={case['inplace']}"])}
 
 
@@ -385,7 +435,7 @@ def o_permute(case):
 # Tucker normalise
 # ----------------------------------------------------------------------------
 @st.composite
-def _tucker_case(draw, min_order=2, max_order=None):
+def _tucker_case(draw, min_order=2, max_order=None, extra_kinds=(), dtypes=None):
     shape = draw(gen.shapes(min_order, min(max_order, _B["order"]) if max_order else _B["order"], 1, _B["side"]))
     ranks = [draw(st.integers(1, _B["trank"])) for _ in shape]
     tk = draw(gen.tucker_factors(shape, ranks))
@@ -394,7 +444,7 @@ def _tucker_case(draw, min_order=2, max_order=None):
         for _ in range(draw(st.integers(1, 2))):
             j = draw(st.integers(0, len(shape) - 1))
             r = draw(st.integers(0, ranks[j] - 1))
-            op = draw(st.sampled_from(["zero", "zmean", "neg", "dup"]))
+            op = draw(st.sampled_from(list(extra_kinds) + ["zero", "zmean", "neg", "dup"]))
             if op == "dup":
                 if ranks[j] < 2:
                     edits.append(["zero", j, r])
@@ -402,17 +452,24 @@ def _tucker_case(draw, min_order=2, max_order=None):
                     edits.append(["dup", j, r, (r + 1) % ranks[j]])
             else:
                 edits.append([op, j, r])
-    return {"shape": shape, "ranks": ranks, "tk": tk, "edits": edits, "form": draw(st.sampled_from(["tuple", "wrapper"]))}
+    c = {"shape": shape, "ranks": ranks, "tk": tk, "edits": edits, "form": draw(st.sampled_from(["tuple", "wrapper"]))}
+    if dtypes:
+        c["dtype"] = draw(st.sampled_from(list(dtypes)))
+    return c
 
 
 def _tucker_build(case):
     core = np.array(gen.dec(case["tk"]["core"]), dtype=float)
-    fs = _apply_edits([np.array(gen.dec(f), dtype=float) for f in case["tk"]["factors"]], case["edits"])
-    return core, fs
+    fs = _apply_edits([np.array(gen.dec(f), dtype=float) for f in case["tk"]["factors"]], case["edits"], case.get("dtype", "float64"))
+    for j, r, up in _tiny_comps(case):      # the core slice that multiplies the tiny column is scaled up: the tensor stays O(1)
+        idx = [slice(None)] * core.ndim
+        idx[j] = r
+        core[tuple(idx)] *= up
+    return _round_to(case, core), [_round_to(case, f) for f in fs]
 
 
 def _tucker_obj(case, core, fs):
-    t = (core.copy(), [f.copy() for f in fs])
+    t = (_cast(case, core), [_cast(case, f) for f in fs])
     return TK.TuckerTensor(t) if case["form"] == "wrapper" else t
 
 
@@ -423,7 +480,7 @@ def _tucker_scale(core, fs):
 def _tucker_labels(case, extra=()):
     kinds = sorted({e[0] for e in case["edits"]})
     return [f"order={len(case['shape'])}", f"maxrank={max(case['ranks'])}", f"form={case['form']}",
-            "edits=" + ("+".join(kinds) if kinds else "none"),
+            "edits=" + ("+".join(kinds) if kinds else "none"), f"dtype={case.get('dtype', 'float64')}",
             f"rank_gt_side={any(r > s for r, s in zip(case['ranks'], case['shape']))}"] + list(extra)
 
 
@@ -449,19 +506,21 @@ def _o_tucker_normalize(part, method):
         core, fs = _tucker_build(case)
         dense = ref.tucker_dense(core, fs)
         if method:
-            obj = TK.TuckerTensor((core.copy(), [f.copy() for f in fs]))
+            obj = TK.TuckerTensor((_cast(case, core), [_cast(case, f) for f in fs]))
             obj.normalize()
             res = obj
         else:
             res = TK.tucker_normalize(_tucker_obj(case, core, fs))
+        rel, unit, col = _tol(case)
         oc, ofs = _unpack_tucker(res, "tucker_normalize", case["ranks"])
         assert_shape(oc, core.shape, "tucker_normalize/structure")
+        oc, ofs = np.asarray(oc, dtype=np.float64), _f64(ofs)
         if part == "dense":
-            close(ref.tucker_dense(oc, ofs), dense, "tucker_normalize/dense", rel=REL, scale=_tucker_scale(core, fs))
+            close(ref.tucker_dense(oc, ofs), dense, "tucker_normalize/dense", rel=rel, scale=_tucker_scale(core, fs))
         else:
             for o, f in zip(ofs, fs):
                 assert_shape(o, f.shape, "tucker_normalize/structure")
-                _check_unit_or_zero(o, f, "tucker_normalize")
+                _check_unit_or_zero(o, f, "tucker_normalize", unit, col)
         return {"nontrivial": _tucker_nontrivial(case), "labels": _tucker_labels(case)}
     return oracle
 
@@ -470,7 +529,7 @@ def _o_tucker_normalize(part, method):
 # PARAFAC2
 # ----------------------------------------------------------------------------
 @st.composite
-def _p2_case(draw):
+def _p2_case(draw, extra_kinds=(), dtypes=None):
     R = draw(st.integers(1, 3))
     I = draw(st.integers(1, 4))
     K = draw(st.integers(1, 4))
@@ -488,15 +547,23 @@ def _p2_case(draw):
         if wk == "mixed":
             ws = [x if x != 0 else 3 for x in ws]
         w = {"s": [R], "d": [x / 4 for x in ws]}
-    return {"R": R, "Js": Js, "A": A, "B": B, "C": C, "w": w, "wkind": wk, "pseeds": [draw(gen.seeds) for _ in range(I)],
-            "edits": draw(_edits(3, R, ("zero", "zmean", "dup", "neg"))), "form": draw(st.sampled_from(["tuple", "wrapper"]))}
+    c = {"R": R, "Js": Js, "A": A, "B": B, "C": C, "w": w, "wkind": wk, "pseeds": [draw(gen.seeds) for _ in range(I)],
+         "edits": draw(_edits(3, R, tuple(extra_kinds) + ("zero", "zmean", "dup", "neg"))), "form": draw(st.sampled_from(["tuple", "wrapper"]))}
+    if dtypes:
+        c["dtype"] = draw(st.sampled_from(list(dtypes)))
+    return c
 
 
 def _p2_build(case):
-    fs = _apply_edits([np.array(gen.dec(case[k]), dtype=float) for k in "ABC"], case["edits"])
+    fs = _apply_edits([np.array(gen.dec(case[k]), dtype=float) for k in "ABC"], case["edits"], case.get("dtype", "float64"))
     w = gen.dec(case["w"]) if case["w"] is not None else None
+    for j, r, up in _tiny_comps(case):
+        if w is not None:
+            w[r] = w[r] * up
+        else:
+            fs[(j + 1) % 3][:, r] *= up
     projs = [gen.orthonormal(s, J, case["R"]) for s, J in zip(case["pseeds"], case["Js"])]
-    return w, fs, projs
+    return _round_to(case, w), [_round_to(case, f) for f in fs], [_round_to(case, p) for p in projs]
 
 
 def _p2_scale(w, fs, projs):
@@ -508,7 +575,7 @@ def _p2_scale(w, fs, projs):
 def _p2_labels(case):
     kinds = sorted({e[0] for e in case["edits"]})
     return [f"R={case['R']}", f"I={len(case['Js'])}", f"w={case['wkind']}", f"form={case['form']}",
-            f"uneven={len(set(case['Js'])) > 1}", "edits=" + ("+".join(kinds) if kinds else "none")]
+            f"uneven={len(set(case['Js'])) > 1}", "edits=" + ("+".join(kinds) if kinds else "none"), f"dtype={case.get('dtype', 'float64')}"]
 
 
 def _unpack_p2(res, clause, I, R):
@@ -528,36 +595,40 @@ def _unpack_p2(res, clause, I, R):
     return w, (A, B, C), projs
 
 
-def _check_orthonormal(p, clause):
+def _check_orthonormal(p, clause, tol=1e-9):
+    p = np.asarray(p, dtype=np.float64)
     g = p.T @ p
     d = float(np.max(np.abs(g - np.eye(g.shape[0])))) if g.size else 0.0
-    check(d <= 1e-9, clause, lambda: f"max|P^T P - I| = {d:.3e}")
+    check(d <= tol, clause, lambda: f"max|P^T P - I| = {d:.3e}")
 
 
 def _o_p2_normalise(part):
     def oracle(case):
         w, fs, projs = _p2_build(case)
         slices = ref.parafac2_slices(w, fs[0], fs[1], fs[2], projs)
-        t = (None if w is None else w.copy(), [f.copy() for f in fs], [p.copy() for p in projs])
+        t = (_cast(case, w), [_cast(case, f) for f in fs], [_cast(case, p) for p in projs])
         arg = P2.Parafac2Tensor(t) if case["form"] == "wrapper" else t
         res = P2.parafac2_normalise(arg)
+        rel, unit, col = _tol(case)
         ow, (A, B, C), op = _unpack_p2(res, "parafac2_normalise", len(projs), case["R"])
+        ow = None if ow is None else np.asarray(ow, dtype=np.float64)
+        (A, B, C), op = _f64((A, B, C)), _f64(op)
         if part == "dense":
             got = ref.parafac2_slices(ow, A, B, C, op)
             sc = _p2_scale(w, fs, projs)
             for i, (g, s) in enumerate(zip(got, slices)):
-                close(g, s, "parafac2_normalise/slices", rel=REL, scale=sc)
+                close(g, s, "parafac2_normalise/slices", rel=rel, scale=sc)
         else:
             check(ow is not None and bool(np.all(ow >= 0)), "parafac2_normalise/weights-nonneg", lambda: f"{ow}")
             win = np.ones(case["R"]) if w is None else w
             nz = win != 0
-            _check_unit_or_zero(A[:, nz], fs[0][:, nz], "parafac2_normalise/A")
+            _check_unit_or_zero(A[:, nz], fs[0][:, nz], "parafac2_normalise/A", unit, col)
             nA = _colnorms(A)
-            check(bool(np.all((nA[~nz] == 0) | (np.abs(nA[~nz] - 1) <= 1e-10))), "parafac2_normalise/A/unit-norm", lambda: f"{nA}")
-            _check_unit_or_zero(B, fs[1], "parafac2_normalise/B")
-            _check_unit_or_zero(C, fs[2], "parafac2_normalise/C")
+            check(bool(np.all((nA[~nz] == 0) | (np.abs(nA[~nz] - 1) <= unit))), "parafac2_normalise/A/unit-norm", lambda: f"{nA}")
+            _check_unit_or_zero(B, fs[1], "parafac2_normalise/B", unit, col)
+            _check_unit_or_zero(C, fs[2], "parafac2_normalise/C", unit, col)
             for p, p0 in zip(op, projs):
-                _check_orthonormal(p, "parafac2_normalise/projections-orthonormal")
+                _check_orthonormal(p, "parafac2_normalise/projections-orthonormal", 1e-9 if unit < 1e-9 else 1e-5)
                 close(p, p0, "parafac2_normalise/projections-unchanged", rel=1e-12, scale=1.0)
         return {"nontrivial": bool(case["edits"]) or case["R"] >= 2, "labels": _p2_labels(case)}
     return oracle
@@ -878,17 +949,20 @@ def subchecks(tier):
     q, t = 300, 4000
     # thorough: larger instances (orders up to 5, sides up to 5, CP ranks up to 5, Tucker / TT ranks up to 4)
     _B.update({"order": 5, "side": 5, "rank": 5, "trank": 4} if tier == "thorough" else {"order": 4, "side": 4, "rank": 4, "trank": 3})
+    # normalisers: additionally "tiny" columns / tiny whole tensors (norm << eps but non-zero) and single precision
+    NK = ("tiny", "tinyall", "zero", "zmean", "dup", "neg")
+    ND = ("float64", "float64", "float32")
     for part in ("dense", "canonical"):
-        S.append(SubCheck(f"cp_normalize/{part}", _cp_case(), _o_cp_normalize(part, False), quick=q, thorough=t))
-        S.append(SubCheck(f"CPTensor.normalize/{part}", _cp_case(forms=("wrapper",)), _o_cp_normalize(part, True), quick=q, thorough=t))
-        S.append(SubCheck(f"tucker_normalize/{part}", _tucker_case(), _o_tucker_normalize(part, False), quick=q, thorough=t))
-        S.append(SubCheck(f"TuckerTensor.normalize/{part}", _tucker_case(), _o_tucker_normalize(part, True), quick=q, thorough=t))
-        S.append(SubCheck(f"parafac2_normalise/{part}", _p2_case(), _o_p2_normalise(part), quick=q, thorough=t))
+        S.append(SubCheck(f"cp_normalize/{part}", _cp_case(edit_kinds=NK, dtypes=ND), _o_cp_normalize(part, False), quick=q, thorough=t))
+        S.append(SubCheck(f"CPTensor.normalize/{part}", _cp_case(forms=("wrapper",), edit_kinds=NK, dtypes=ND), _o_cp_normalize(part, True), quick=q, thorough=t))
+        S.append(SubCheck(f"tucker_normalize/{part}", _tucker_case(extra_kinds=NK[:2], dtypes=ND), _o_tucker_normalize(part, False), quick=q, thorough=t))
+        S.append(SubCheck(f"TuckerTensor.normalize/{part}", _tucker_case(extra_kinds=NK[:2], dtypes=ND), _o_tucker_normalize(part, True), quick=q, thorough=t))
+        S.append(SubCheck(f"parafac2_normalise/{part}", _p2_case(extra_kinds=NK[:2], dtypes=ND), _o_p2_normalise(part), quick=q, thorough=t))
         S.append(SubCheck(f"cp_flip_sign/{part}", _flip_case(False), _o_flip(part, False), quick=q, thorough=t))
         # D16: zero-summary columns (sign(0) = 0 deletes the component) -- kept apart so that the others keep searching
         S.append(SubCheck(f"cp_flip_sign/zero_summary/{part}", _flip_case(True), _o_flip(part, True), quick=q, thorough=t))
     # documented return value / `inplace` option of the method (defect N5 class)
-    S.append(SubCheck("CPTensor.normalize/returns", st.builds(lambda c, i: dict(c, inplace=i), _cp_case(forms=("wrapper",)),
+    S.append(SubCheck("CPTensor.normalize/returns", st.builds(lambda c, i: dict(c, inplace=i), _cp_case(forms=("wrapper",), edit_kinds=NK, dtypes=ND),
                                                              st.sampled_from(["default", True, False])),
                       o_cp_normalize_returns, quick=150, thorough=1500))
     S.append(SubCheck("cp_flip_sign/none_weights", st.builds(lambda c, m: dict(c, mode=m % len(c["shape"]), form="tuple"),
